@@ -22,22 +22,33 @@ THEOREMS_ORDERS = [
     "seqPlace_complete_of_perm", "bfsPlace_complete_unit", "hilbertPlace_complete_unit", "rcmPlace_complete_unit",
 ]
 
+# text for CLAIM["text"] / CLAIM["note"] of harness/c02.py once this module is hooked in
 CLAIM_ORDERS = (
-    "Order functions of the wrapper placers (Props/C02Orders.lean), for ALL netlists (disconnected graphs, isolated "
-    "vertices, self loops, repeated sinks, zero-weight nets, nets over unknown vertices) and ALL set iteration orders "
-    "/ set.pop() outcomes: breadth_first_vertex_order lists every vertex of vertices_resources exactly once and "
-    "terminates; rcm_vertex_order (when it returns) lists every vertex exactly once (nets over known vertices); "
-    "rcm_chip_order lists every working chip exactly once for every machine with dead chips and dead links; the "
-    "Hilbert L-system of level k visits every point of the 2^k x 2^k square exactly once (induction on the level) "
-    "and hilbert_chip_order therefore lists every working chip of a w x h machine exactly once; hence the "
-    "breadth-first, Hilbert and RCM placers succeed under the unit-demand hypotheses.")
+    "Order functions of the wrapper placers (Props/C02Orders.lean), proved for ALL netlists (disconnected graphs, "
+    "isolated vertices, self loops, repeated sinks, zero-weight nets, nets over unknown vertices), ALL machines (dead "
+    "chips, dead links) and ALL outcomes of the set iterations / set.pop() calls inside the functions: "
+    "breadth_first_vertex_order lists every vertex of vertices_resources exactly once and its loop terminates; "
+    "rcm_vertex_order, whenever it returns, never repeats a vertex, misses none, and lists exactly the vertices when "
+    "the nets connect known vertices (symmetric neighbour table, DFS closure, pairwise disjoint subgraphs, "
+    "Cuthill-McKee order = rearrangement of the subgraph); rcm_chip_order is a rearrangement of iter(machine); the "
+    "Hilbert L-system of level n, started in any frame, visits every point of its 2^n x 2^n square exactly once "
+    "(induction on the level), so hilbert(k) enumerates [0,2^k)^2 without repetition and hilbert_chip_order, "
+    "restricted to the machine, is a rearrangement of iter(machine); the decidable checks run on the "
+    "implementation's orders equal these statements; hence (corollaries of seqPlace_complete_unit) the "
+    "breadth-first, Hilbert (both modes) and RCM placers succeed under the unit-demand hypotheses. Tied to the code "
+    "by exact correspondence of every order function (and of _get_vertices_neighbours, _dfs, "
+    "_get_connected_subgraphs, _cuthill_mckee, the nets built by rcm_chip_order, hilbert(level)) with recorded set "
+    "iteration orders, and by the Lean predicates isPermOf / coversOnce evaluated on the orders the wrappers hand to "
+    "the sequential placer on an exactly-filling unit-demand problem.")
 
 NOTE_ORDERS = (
-    "Order functions: NOT proved, only validated by exact correspondence: that _dfs / _cuthill_mckee never run out "
-    "of the model's fuel (termination of rcm_vertex_order: the coverage theorem is stated for the runs that "
-    "return); that int(ceil(log(n, 2.0))) is the integer ceil-log2 (enumerated for every n <= 65536 on every run: "
-    "the float expression is wrong from n = 2**49+1 on, far outside any machine); float net weights are exact "
-    "multiples of 1/4 in the generators (handed to the model as integers).")
+    "Order functions, NOT proved, only validated by the exact correspondence on every run: termination of "
+    "rcm_vertex_order (that _dfs and _cuthill_mckee never exhaust the model's fuel - for _cuthill_mckee this needs "
+    "the connectivity of each subgraph; the RCM theorems are stated for the runs that return, the breadth-first ones "
+    "include termination); that int(ceil(log(n, 2.0))) is the integer ceil-log2 `levels n` (enumerated for every "
+    "n <= 65536 on every run; the float expression is too small from n = 2**49+1 on, far outside any machine). Net "
+    "weights are exact multiples of 1/4 in the generators and are handed to the model as integers; set iteration "
+    "orders and set.pop() results are recorded through a `set` subclass bound in the two modules' namespaces.")
 
 RULE_ORDERS = ("order cases: netlists of 0-14 (thorough: up to 40) vertices with sparse random identifiers, 0-2n nets "
                "with 0-4 sinks (repeated sinks, self loops, zero and fractional weights, a stream with unknown "
@@ -371,6 +382,16 @@ def eval_cases(ctx, cases):
                     ctx.mismatch("c02orders." + name,
                                  "the Lean predicate %s fails on the implementation's order %r" % (
                                      "isPermOf" if kind == "perm" else "coversOnce", impl), desc)
+        for t, on in (("unknown-vertices", case["unknown"]), ("no-nets", not case["nets"]),
+                      ("zero-weight-net", any(n_[2] == 0 for n_ in case["nets"])),
+                      ("fractional-weight", any(n_[2] != int(n_[2]) for n_ in case["nets"])),
+                      ("self-loop", any(n_[0] in n_[1] for n_ in case["nets"])),
+                      ("repeated-sink", any(len(set(n_[1])) < len(n_[1]) for n_ in case["nets"])),
+                      ("dead-links", bool(case["dead_links"])), ("dead-chips", bool(case["dead"])),
+                      ("no-working-chip", n_work == 0), ("no-vertices", not case["vs"]),
+                      ("non-square-machine", case["w"] != case["h"])):
+            if on:
+                ctx.tag("orders:case:" + t)
         ctx.case(desc, len(case["vs"]) >= 2 and bool(case["nets"]) and n_work >= 2)
 
 
